@@ -224,7 +224,7 @@ PROPS["C10"] = dict(
          "sequences avoid the two known classes, 1/6 are unrestricted; every op's result compared with the concrete model AND checked by the abstract "
          "monitor (multiset of owed moves) fed with the implementation's own answers",
     trusted_base=CORE_TRUST + ["spec/IterSpec.v is the abstract iterator the theorems refine to"],
-    assumptions=["drain/cover theorems carry |content| <= 400 (the model's drain fuel; a real position has at most 218 moves)"],
+    assumptions=[],
 )
 PROPS["C15"] = dict(
     jobs=lambda ctx: [dict(sub=["bot", q(ctx, 14, 300)], shards=16, timeout=3000, needs_bot=True)],
